@@ -17,6 +17,7 @@ pub(crate) mod prover;
 pub(crate) mod prng;
 
 mod c01;
+mod c03;
 mod c05;
 mod c07;
 mod c10;
@@ -66,6 +67,7 @@ lazy_static::lazy_static! {
 fn run_op(op: &str, seed: u64, n: u64, out: &mut out::Out) {
     match op {
         "c01" => c01::run(seed, n, out),
+        "c03" => c03::run(seed, n, out),
         "c05" => c05::run(seed, n, out),
         "c07" => c07::run(seed, n, out),
         "c10" => c10::run(seed, n, out),
